@@ -25,7 +25,7 @@ type L2OracleHandler struct {
 	oracleKeeper        types.OracleKeeper
 	extendedCommitCodec connectcodec.ExtendedCommitCodec
 	veCodec             connectcodec.VoteExtensionCodec
-	voteAggregator      connectaggregator.VoteAggregator
+	logger              log.Logger
 }
 
 func NewL2OracleHandler(
@@ -44,16 +44,26 @@ func NewL2OracleHandler(
 			connectcodec.NewDefaultVoteExtensionCodec(),
 			connectcodec.NewZLibCompressor(),
 		),
-		voteAggregator: connectaggregator.NewDefaultVoteAggregator(
-			logger,
-			voteweighted.MedianFromContext(
-				logger,
-				k.HostValidatorStore,
-				voteweighted.DefaultPowerThreshold,
-			),
-			currencypair.NewHashCurrencyPairStrategy(oracleKeeper),
-		),
+		logger: logger,
 	}
+}
+
+// newVoteAggregator builds the aggregator for one oracle update. The vote
+// aggregator and the hash currency-pair strategy both keep process-local state
+// (per-provider prices, a per-height id cache). Sharing them between executions
+// made the store reads - and therefore the gas charged to the transaction -
+// depend on what the process had executed before at the same height, so the
+// handler must not hold on to them.
+func (k L2OracleHandler) newVoteAggregator() connectaggregator.VoteAggregator {
+	return connectaggregator.NewDefaultVoteAggregator(
+		k.logger,
+		voteweighted.MedianFromContext(
+			k.logger,
+			k.HostValidatorStore,
+			voteweighted.DefaultPowerThreshold,
+		),
+		currencypair.NewHashCurrencyPairStrategy(k.oracleKeeper),
+	)
 }
 
 func (k L2OracleHandler) UpdateOracle(ctx context.Context, height uint64, extCommitBz []byte) error {
@@ -93,7 +103,7 @@ func (k L2OracleHandler) UpdateOracle(ctx context.Context, height uint64, extCom
 	if err != nil {
 		return err
 	}
-	prices, err := k.voteAggregator.AggregateOracleVotes(sdkCtx, votes)
+	prices, err := k.newVoteAggregator().AggregateOracleVotes(sdkCtx, votes)
 	if err != nil {
 		return err
 	}
